@@ -27,7 +27,7 @@ def runCtxOp (op : String) (c : Ctx) (x y : Dec) (iarg : Int) : Option Out :=
   | "cbrt" => cbrtOp c x
   | "exp" => expSpecials c x
   | "ln" | "log10" => logSpecials c x
-  | "pow" => powSpecials c x y
+  | "pow" => powIntOp c x y
   | _ => none
 
 /-- operations judged by their specification oracle only (no executable model of the float-steered series yet) -/
